@@ -26,6 +26,8 @@ func checkC02(c *Ctx, r *Report) {
 		r.unresolved("C02.load", "root module", err.Error())
 		return
 	}
+	r.rule("C02.R5", "slices handed out by WriteBuffer are fresh: a shared backing array lets a later append overwrite batches parked for a flush, duplicating or reordering stored offsets", 1)
+	checkBufferFresh(m, r, "C02.R5")
 	r.rule("C02.R1", "who-may-write PartitionLog.nextOffset: NewPartitionLog, AppendBatch, RestoreFromS3 (guarded by last >= l.nextOffset)", 4)
 	r.rule("C02.R2", "AppendBatch stores nextOffset' = load(nextOffset) + int64(batch.LastOffsetDelta) + 1; LastOffset = nextOffset'-1; NewRecordBatchFromBytes success return has passed LastOffsetDelta>=0 and MessageCount>=0; every AppendBatch argument comes from NewRecordBatchFromBytes", 4)
 	r.rule("C02.R3", "the value loaded from nextOffset is the one given to PatchRecordBatchBaseOffset and stored in AppendResult.BaseOffset; handleProduce copies result.BaseOffset into the success entry", 3)
